@@ -122,6 +122,9 @@ func work(args []string) int {
 		if groupOf(s) != *group {
 			continue
 		}
+		if only := os.Getenv("VH_ONLY"); only != "" && !strings.HasPrefix(s.Name, only) {
+			continue // debugging aid: run only strata with this name prefix
+		}
 		n := s.N(mon.Tier(*tier))
 		nsamples := 0
 		for i := 0; i < n; i++ {
@@ -309,6 +312,13 @@ func drive(args []string) int {
 					// contain runaway allocations: address-space limit
 					sh := "ulimit -v 6000000; exec \"$0\" \"$@\""
 					cmd = exec.Command("sh", append([]string{"-c", sh, bin}, wargs...)...)
+				}
+				if cmd.Env == nil {
+					cmd.Env = os.Environ()
+				}
+				if r.group != "race" {
+					// one busy goroutine per worker: keep the Go runtime from spinning up 16 GC threads in each of 16 processes
+					cmd.Env = append(cmd.Env, "GOMAXPROCS=2")
 				}
 				lf, _ := os.Create(logPath)
 				cmd.Stdout = lf
